@@ -53,7 +53,7 @@ def collect(rd, pid, x):
         other[c] = {"violation_lines": sum(1 for l in ls if l.startswith("VIOLATION")),
                     "first_signatures": [l.strip()[:300] for l in ls if l.startswith("  signature=")][:2]}
     m = re.search(r'(?is)(what (it )?(takes|needs)[^\n]*\n.*?)(\n#|\Z)', readme)
-    meta = {"property": pid, "title": props.get(pid), "variant": x, "round": int(rd) - 1 if str(rd).isdigit() else rd,
+    meta = {"property": pid, "title": props.get(pid), "variant": x, "round": int(rd) if str(rd).isdigit() else rd,
             "breaks": "property %s (%s)" % (pid, props.get(pid)),
             "needs_to_manifest": (m.group(1) if m else readme[:1200])[:1500],
             "confirmed_by_me": {"applies_to_current_tree": 'note' not in st,
@@ -81,8 +81,8 @@ def results():
     with open(os.path.join(OUT, 'RESULTS.md'), 'w') as f:
         f.write("# Seeded changes and which checks catch them\n\nEach change was written by an independent sub-agent that saw only the property text, in its own scratch "
                 "worktree. Variants A, B are the first round; C, D a second round (fresh agents, told only the one-line titles of A and B so as to do something else) run "
-                "after the checks had been strengthened once; E, F (third round) were evaluated but their files were lost with the scratch area of that session - only "
-                "their descriptions survive in DESIGN.md section 11; G, H are the fourth round (fresh agents, told one-line descriptions of all earlier changes). "
+                "after the checks had been strengthened once; the third (E, F) and fourth rounds were evaluated in earlier sessions but their files were lost with the scratch area of those sessions - only "
+                "their descriptions survive in DESIGN.md section 11; G is the fifth round (fresh agents, told one-line descriptions of all earlier changes; files committed as soon as evaluated). "
                 "`valid` = applies to the current tree, compiles, pinned Go tests pass, demonstration fails with the change and passes without. `caught` = "
                 "`./check <id> --tier quick` (run with VERIF_REPO pointing at a scratch worktree with the change applied) exits 1 with VIOLATION lines.\n\n"
                 "| property | variant | valid | caught by ./check <id> | first violation signature |\n|---|---|---|---|---|\n")
